@@ -252,6 +252,9 @@ def make_world(seed, k, world):
             kw['pre'] = cb('pre', g)
         if rng.random() < 0.4:
             kw['post'] = cb('post', g)
+        if rng.random() < 0.3:
+            # a profiling label; nothing says labels have to differ
+            kw['name'] = str(rng.choice(['density', 'forces']))
         if allow_update and rng.random() < 0.25:
             kw['update_nnps'] = True
             eqs.append(mover_class()(dest=str(rng.choice(names)),
@@ -280,6 +283,8 @@ def make_world(seed, k, world):
                 kw['post'] = cb('post', gid[0])
             if rng.random() < 0.3:
                 kw['condition'] = cond(gid[0], 0.5)
+            if rng.random() < 0.3:
+                kw['name'] = str(rng.choice(['density', 'forces']))
             groups.append(Group(equations=[s[0] for s in subs], **kw))
             desc.append(dict(gid=gid[0], kw={k_: (
                 v if isinstance(v, (int, float, str, bool)) else 'callable')
